@@ -238,7 +238,11 @@ func c06RunE2EChild(c *Case) (out string, fails []Fail) {
 	// the child died: a panic or a fatal error in one of the implementation's goroutines (in-process it would have
 	// taken the generator down), or the watchdog ended it; the end of its stderr says which
 	tail := stderr.String()
-	os.WriteFile("c06_child_stderr.txt", []byte("case "+c.Line()+"\n\n"+tail), 0o644)
+	if d := os.Getenv("VERIF_OUTDIR"); d != "" { // gen: beside cases.txt
+		os.WriteFile(filepath.Join(d, "c06_child_stderr.txt"), []byte("case "+c.Line()+"\n\n"+tail), 0o644)
+	} else {
+		os.Stderr.WriteString(tail)
+	}
 	if i := strings.Index(tail, "\ngoroutine "); i >= 0 {
 		tail = tail[:i]
 	}
